@@ -255,6 +255,12 @@ def discharge_site(prog, ctx, n, site, fa, tb, eng, reviewed, used_reviews, nume
             idx = tb.operand(site.term["args"][1])
             if rem_by_len(prog, site.body, tb, idx, cont):
                 return "rule", "index is reduced modulo the length of the indexed container"
+            # the same through a helper whose result is a single expression of its parameters
+            if idx[0] == "call" and idx[1] in prog.bodies:
+                from terms import inline_call
+                it = inline_call(prog, idx[1], idx[2], 1)
+                if it is not None and rem_by_len(prog, site.body, tb, it, cont):
+                    return "rule", "index (result of %s) is reduced modulo the length of the indexed container" % idx[1].split("::")[-1]
         if nme.endswith("Rng::gen_range"):
             a = tb.operand(site.term["args"][1])
             if a[0] == "agg" and "Range" in a[1]:
@@ -291,4 +297,12 @@ def discharge_site(prog, ctx, n, site, fa, tb, eng, reviewed, used_reviews, nume
     if (n, site.key) in reviewed:
         used_reviews.add((n, site.key))
         return "reviewed", reviewed[(n, site.key)]["reason"]
+    if site.kind.startswith("assert"):
+        # the same checked expression (kind + operands, parameters by name) reviewed in a sibling function of the same impl /
+        # module: the site was moved (helper extraction); `unwrap`-like call sites carry no operands and are never transferred
+        scope = n.rsplit("::", 1)[0]
+        for (fn, key), e in reviewed.items():
+            if key == site.key and fn != n and fn.rsplit("::", 1)[0] == scope and "{closure" not in fn and "{closure" not in n:
+                used_reviews.add((fn, key))
+                return "reviewed", "(review of the same expression in %s, same impl) %s" % (fn.split("::")[-1], e["reason"])
     return None, None
